@@ -54,6 +54,22 @@ func init() {
 	add("c11-closed-parsed-wrapper", "C11.closed", "pkg/interp/repl.jq", ", output_query: _query_func(\"_repl_display\")", ", output_query: (\". as $x | _repl_display\" | _query_fromstring)", "output_query")
 	add("c11-closed-key-typo", "C11.closed", ejq, "elif $opts.output_query then", "elif $opts.output_qeury then", "optkey:read:output_qeury")
 
+	// self-review additions
+	const rjq = "pkg/interp/repl.jq"
+	add("c11-ctor-commas-guard", "C11.ctor", qjq, "if length == 0 then _query_empty", "if length <= 1 then _query_empty", "flow:_query_commas:guard")
+	add("c11-closed-catch-value", "C11.closed", rjq, ", catch_query: _query_func(\"_repl_on_expr_error\")", ", catch_query: _query_ident", "catch-call:pkg/interp/repl.jq:_repl_eval:catch_query#1")
+	add("c11-go-helper-marshals-term", "C11.go", qgo, "\tb, err := json.Marshal(q)\n\tif err != nil {\n\t\treturn err\n\t}\n\tvar v any\n\tif err := json.Unmarshal(b, &v); err != nil {\n\t\treturn err\n\t}\n\n\treturn v\n}",
+		"\treturn queryToValue(q)\n}\n\nfunc queryToValue(q *gojq.Query) any {\n\tb, err := json.Marshal(q.Term)\n\tif err != nil {\n\t\treturn err\n\t}\n\tvar v any\n\tif err := json.Unmarshal(b, &v); err != nil {\n\t\treturn err\n\t}\n\n\treturn v\n}", "_query_fromstring:marshal-arg")
+	add("c11-go-helper-postprocess", "C11.go", qgo, "\treturn q.String()\n}", "\treturn printQuery(&q)\n}\n\nfunc printQuery(q *gojq.Query) string { return q.String() + \"\" }", "_query_tostring:result")
+
+	// C11.repl
+	add("c11-repl-input-not-iterated", "C11.repl", rjq, ", input_query: (_query_ident | _query_iter) # .[]", ", input_query: _query_ident # .[]", "input:_repl_eval/3")
+	add("c11-repl-eval-orig", "C11.repl", rjq, "    | _repl_slurp_eval($query.rewrite)\n    | _repl($opts)", "    | _repl_slurp_eval($query.orig)\n    | _repl($opts)", "slurp-eval:_repl_slurp/1:$query.orig")
+	add("c11-repl-slurp-no-rewrite", "C11.repl", rjq, "( _repl_slurp_eval($query.rewrite) as $v", "( _repl_slurp_eval($query.slurp_args[0]) as $v", "slurp-eval:_slurp/1:rewrite")
+	add("c11-repl-feed-element", "C11.repl", "pkg/interp/init.jq", "          | map(_cli_eval($opts.expr; $eval_opts))\n          | _repl({})", "          | map(_cli_eval($opts.expr; $eval_opts))\n          | .[0]\n          | _repl({})", "feed:_main/0#1")
+	add("c11-repl-collect-swallow", "C11.repl", rjq, "    ]\n  catch\n    error(.error);", "    ]\n  catch\n    [];", "collect:_repl_slurp_eval/1")
+	add("c11-repl-orphan-handler", "C11.repl", rjq, ", slurp: \"_slurp\"", ", slurp: \"_repl_slurp\"", "slurp-target:_slurp/1")
+
 	// C11.inputs
 	const ijq = "pkg/interp/init.jq"
 	add("c11-inputs-repl-drop-arm", "C11.inputs", ijq, "              elif $opts.string_input then inputs\n              elif $opts.slurp then [inputs]\n", "              elif $opts.slurp then [inputs]\n", "agree:_main:call1~call2:$opts.null_input=0,$opts.slurp=1,$opts.string_input=1")
